@@ -259,7 +259,7 @@ Fixpoint xunser (fuel : nat) (e : xenv) (s : xschema) (v : gval) {struct fuel} :
         end
     | XOneOf types ik field inlined =>
         match v with
-        | VNil => Err (perr ERepr)
+        | VNil => Err (cerr ERepr)                  (* D66 (repaired): a constraint error, as in Ops.unser *)
         | VMap _ _ kvs =>
             if forallb (fun kv => match fst kv with VStr TStr _ => true | _ => false end) kvs then
               match smap_get field kvs with
@@ -402,7 +402,7 @@ with xoneof_find (fuel : nat) (e : xenv) (types : list (okey * xschema)) (ik : b
                       | None => Err (cerr EKey)
                       | Some (_, member) =>
                           let clone := VMap t_str_map false (if inlined then kvs else smap_del field kvs) in
-                          _ <- rewrap true (xcompat f e member clone) ;;
+                          _ <- rewrap_path (xcompat f e member clone) ;;      (* D67 (repaired), as Ops.oneof_find *)
                           Ok (key, member, clone)
                       end
                   end
@@ -566,7 +566,15 @@ with xcompat (fuel : nat) (e : xenv) (s : xschema) (v : gval) {struct fuel} : ou
     | XList it _ _ =>
         match v with
         | VSlice _ _ l => _ <- mapMi (fun i x => seg (idx_seg i) (xcompat f e it x)) 0 l ;; Ok tt
-        | VPtr _ (Some (VSlice _ _ _)) => Panic "reflect: Len of ptr Value"
+        | VPtr t (Some (VSlice _ _ l)) =>
+            (* D49 (repaired), as Ops.compat: a pointer whose element type is a slice is read as that slice *)
+            match underlying t with
+            | TPtr te => match kind_of_type te with
+                         | KSlice => _ <- mapMi (fun i x => seg (idx_seg i) (xcompat f e it x)) 0 l ;; Ok tt
+                         | _ => Err (cerr ERepr)
+                         end
+            | _ => Err (cerr ERepr)
+            end
         | _ => Err (cerr ERepr)
         end
     | XMap ks vs mn mx =>
@@ -585,17 +593,17 @@ with xcompat (fuel : nat) (e : xenv) (s : xschema) (v : gval) {struct fuel} : ou
             _ <- forM_ (fun kv => match alookup (fst kv) props with
                                   | Some p =>
                                       seg (fst kv)
-                                        (_ <- rewrap true (xcompat f e (p_type p) (snd kv)) ;;
+                                        (_ <- rewrap_path (xcompat f e (p_type p) (snd kv)) ;;
                                          if p_disabled p then Err (cerr EDisabled) else Ok tt)
                                   | None => Err (cerr EKey)
                                   end) r ;;
             forM_ (fun np => if p_required (snd np)
                              then match alookup (fst np) r with
-                                  | None | Some VNil => Err (cerr EPresence)
+                                  | None | Some VNil => Err (cerr_at [fst np] EPresence)
                                   | Some _ => Ok tt
                                   end
                              else Ok tt) props
-        | None => _ <- rewrap true (xunser f e s v) ;; Ok tt
+        | None => _ <- rewrap_path (xunser f e s v) ;; Ok tt
         end
     | XOneOf types ik field inlined =>
         match is_str_any_map v with
